@@ -27,7 +27,9 @@ theorem chunkDown_explicit (init : Location) (hwf : WF init) (hne : init ≠ .em
   have hlen : ¬ (W.w.len = 0) := by unfold Blk.len; omega
   have hne' : ¬ ((init == Location.empty) = true) := by simpa using hne
   unfold chunkDown chunkLocOf
-  rw [if_neg hlen, if_neg hne']
+  rw [if_neg hlen]
+  -- (`chunkDown` has, in some revisions of Model/Lift.lean, an explicit refusal of the empty location first)
+  first | rw [if_neg hne'] | skip
   cases init with
   | empty => exact absurd rfl hne
   | single b st =>
@@ -381,6 +383,60 @@ theorem chunkLocOf_facts (init : Location) (L : Loc) (hl : toLoc init = some L) 
       intro L' hL'
       simp only [toLoc, Option.some.injEq] at hL'; subst hL'
       exact ⟨rfl, txNonOverlap_of_pairwise _ hord.1, hcore⟩
+
+theorem blocksLen_pos (S : List Blk) (r : Blk) (hr : r ∈ S) (hp : r.1 < r.2) : 0 < blocksLen S := by
+  induction S with
+  | nil => cases hr
+  | cons x xs ih =>
+    simp only [blocksLen, Blk.len]
+    rcases List.mem_cons.1 hr with rfl | h
+    · omega
+    · have := ih h; omega
+
+/-- a chunk-relative location without bases is the empty location -/
+theorem chunkLocOf_no_bases (init : Location) (L : Loc) (hl : toLoc init = some L) (hwf : WF init)
+    (hst : L.strand = .plus ∨ L.strand = .minus) (hno : nonOverlap L.blocks = true) (W : Win) (hW : winOk W = true)
+    (hnb : chunkBases L W = []) : chunkLocOf init W = .empty := by
+  obtain ⟨hd, hwl⟩ := winOk_unpack W hW
+  have hv := WF_valid init L hl hwf
+  have hp := nonOverlap_pairwise L.blocks hv hno
+  have hcore := chunk_blocks_bases L.blocks L.strand W hst hd hv hp
+  have hord := chunk_blocks_ordered L.blocks L.strand W hd hp (compose L.strand W.wst)
+  rw [hnb] at hcore
+  have hlen := congrArg List.length hcore
+  rw [bases_length] at hlen
+  simp only [List.length_nil, Loc.len] at hlen
+  cases init with
+  | empty => simp [toLoc] at hl
+  | single b st =>
+    simp only [toLoc, Option.some.injEq] at hl; subst hl
+    simp only [chunkLocOf]
+    simp only [List.filterMap_cons, List.filterMap_nil] at hlen hord
+    cases hc : clip W.w b with
+    | none => rfl
+    | some c =>
+      simp only [hc, List.map_cons, List.map_nil, sortBlocks_singleton] at hlen hord
+      have := blocksLen_pos [chunkBlk W c] (chunkBlk W c) (by simp) (hord.2 (chunkBlk W c) (by simp))
+      omega
+  | compound l =>
+    simp only [toLoc, Option.some.injEq] at hl; subst hl
+    simp only [chunkLocOf]
+    cases hcs : (List.filterMap (clip W.w) l.blocks) with
+    | nil => simp
+    | cons c0 cr =>
+      rw [hcs] at hlen hord
+      have hm : chunkBlk W c0 ∈ sortBlocks (compose l.strand W.wst) ((c0 :: cr).map (chunkBlk W)) :=
+        (sortBlocks_perm _ _).mem_iff.mpr (by simp)
+      have := blocksLen_pos _ _ hm (hord.2 _ hm)
+      omega
+
+/-- every chunk coordinate of an in-window base is a position of the chunk -/
+theorem chunkBases_lt (L : Loc) (W : Win) (hW : winOk W = true) : ∀ x ∈ chunkBases L W, x < W.w.2 - W.w.1 := by
+  intro x hx
+  unfold chunkBases at hx
+  simp only [List.mem_map, List.mem_filter, inWin, Bool.and_eq_true, decide_eq_true_eq] at hx
+  obtain ⟨p, ⟨_, h1, h2⟩, rfl⟩ := hx
+  unfold chunkOf; split <;> omega
 
 /-- `chunkLocOf` is empty exactly when it has no base -/
 theorem chunkLocOf_empty_iff (init : Location) (L : Loc) (hl : toLoc init = some L) (hwf : WF init)
